@@ -392,15 +392,16 @@ func (x *c20Run) backoff(o c20Op) {
 	x.sync(ref, k, total, d, ks, kt)
 }
 
-// kindCheck: exhaustion reports the kind that consumed the most time (largest
-// among the budgeted kinds or largest among all kinds).  After a Reset both
-// readings (whole lineage / since the reset) are accepted; ties accept every maximal kind; a kind whose error the harness does
-// not know accepts everything.
+// kindCheck: when the *budget* is exhausted (the only case this is called for; exhaustion of the excluded
+// kinds' own cap is not judged), the error reports the kind that consumed the most of it, i.e. the largest
+// among the kinds counted in the budget: a kind excluded from the budget consumed none of it and cannot be
+// "the kind that consumed the most time when the budget is exhausted" (seed C20-8 reported server-busy for
+// a time-out made of region-miss back-offs; until then both readings were accepted).  After a Reset both
+// readings (whole lineage / since the reset) are accepted; ties accept every maximal kind; a kind whose
+// error the harness does not know accepts everything; if no budgeted kind has slept nothing is demanded.
 func (x *c20Run) kindCheck(o c20Op, k *c20Kind, e error, ref *c20Ref, where string) {
 	accept := map[string]bool{}
-	for _, withExcluded := range []bool{false, true} {
-		// "the kind that consumed the most time": among the budgeted kinds (what the code does) or,
-		// read literally, among all kinds — both accepted
+	for _, withExcluded := range []bool{false} {
 		for _, m := range []map[string]int{ref.kindSleep, ref.since} {
 			best := 0
 			for name, v := range m {
